@@ -48,3 +48,38 @@ prop("C03",
          H("txfile.VerifProgStore", "from-init symbolic program against a reference model: read-your-writes, committed view, reopen",
            "ntx=1,nops=2 (quick)", quick={"params": {"ntx": 1, "nops": 2}}, thorough={"params": {"ntx": 2, "nops": 2, "nops2": 1}, "max_paths": 200000, "budget": "1500s"}),
      ])
+
+PROG_BOUNDS = ("fresh file on the simulated disk (page size 1024, 64 pages or unbounded), 2 committed pages, "
+               "transactions of <= 2-3 symbolic operations (alloc, alloc-without-write, allocN(2), free, free-new, overwrite, Tx.Flush, CheckpointWAL), "
+               "symbolic endings and content bytes; variants: plain / InitMetaArea=4 / overflow area enabled / unbounded / InitMetaArea=4+WALLimit=1")
+PROG_OUT = ("longer transactions and histories, page sizes other than 1024, map iteration orders other than insertion order, "
+            "background-writer batchings other than 'writer runs when the transaction blocks'")
+
+def variants(entry, what, quick_params, thorough_params, vs=(0, 1, 2, 3, 4), quick_vs=(0,), **kw):
+    out = []
+    for v in vs:
+        tiers = ("quick", "thorough") if v in quick_vs else ("thorough",)
+        q = dict(quick_params); q["variant"] = v
+        t = dict(thorough_params); t["variant"] = v
+        out.append(H(entry, what + " [variant %d]" % v, "quick %s / thorough %s" % (quick_params, thorough_params),
+                     tiers=tiers, quick={"params": q}, thorough={"params": t, "max_paths": 300000, "budget": "1200s"}, **kw))
+    return out
+
+# ------------------------------------------------------------------ C07
+prop("C07", bounds=PROG_BOUNDS, outside=PROG_OUT,
+     harnesses=variants("txfile.VerifProgAbort", "aborted transaction (Rollback/Close) vs. snapshot at Begin: allocator partition, markers, meta area, overwrite log, header, stats, file size, follow-up allocations",
+                        {"nops": 2, "pre": 1}, {"nops": 3, "pre": 2}, quick_vs=(0, 2)))
+
+# ------------------------------------------------------------------ C04
+prop("C04", bounds=PROG_BOUNDS, outside=PROG_OUT,
+     harnesses=variants("txfile.VerifProgOwn", "every id returned by Alloc/AllocN is >= 2, not live, not freed-but-committed, not internal; ownership partition after every commit",
+                        {"nops": 2, "ntx": 2}, {"nops": 3, "ntx": 2}, quick_vs=(0, 1)))
+
+# ------------------------------------------------------------------ C11
+prop("C11", bounds=PROG_BOUNDS, outside=PROG_OUT,
+     harnesses=variants("txfile.VerifProgOwn", "allocatable + live + meta area + 2 == max pages, extent <= max, FileStats == model after every commit",
+                        {"nops": 2, "ntx": 2}, {"nops": 3, "ntx": 2}, vs=(0, 1, 4), quick_vs=(0, 1)))
+
+CHECKS["C10"]["harnesses"] += variants("txfile.VerifProgReopen", "reopened instance == running instance (free lists, markers, meta area, overwrite log, root, stats, allocatable pages), then one more symbolic transaction",
+                                        {"nops": 2, "ntx": 1, "nops2": 1}, {"nops": 3, "ntx": 2, "nops2": 1}, quick_vs=(0, 4))
+CHECKS["C10"]["bounds"] += "; " + PROG_BOUNDS
